@@ -82,6 +82,10 @@ def eval_call(eng, e, st):
             if fn == "rsa_ok":
                 return [(st, VBool(smt.rsa_ok(_box(vals[0]), ct)))]
             return [(st, VSeq(smt.rsa_pt(_box(vals[0]), ct), "bytes"))]
+        if fn == "xview" and fn not in st.env:
+            E_ = eng.as_iseq(st, eng.ev1(e.args[0], st)).t
+            o_ = eng.as_int(st, eng.ev1(e.args[1], st))
+            return [(st, VSeq(smt.xview(E_, o_), "bytes"))]
         if fn == "fits_bytes" and fn not in st.env:
             n = eng.as_int(st, eng.ev1(e.args[0], st))
             w = eng.as_int(st, eng.ev1(e.args[1], st))
@@ -602,6 +606,23 @@ def method_call(eng, st, recv, name, args, kwargs, node):
                                 patterns=[smt.keypair(key, pv)]))
             return [(st, VSeq(rr, "bytes"))]
         raise Unsupported(f"PKCS1 method {name}")
+    if isinstance(r, VConst) and r.what == "counter" and name == "most_common":
+        src = r.py[1]
+        if args:
+            raise Unsupported("most_common(n)")
+        L = fresh("most_common", VSq)
+        j, k2 = fresh("j", I), fresh("k", I)
+        key = lambda idx: Val.ival(VS.at(Val.tval(VS.at(L, idx)), z3.IntVal(0)))
+        from .values import wt_seq
+        st.assume(*wt_seq(L, ("tuple", "int", "int")))
+        st.assume(z3.ForAll([j], z3.Implies(z3.And(0 <= j, j < VS.len(L)),
+                                            z3.Exists([k2], z3.And(0 <= k2, k2 < IS.len(src.t), IS.at(src.t, k2) == key(j)))),
+                            patterns=[VS.at(L, j)]),
+                  z3.ForAll([k2], z3.Implies(z3.And(0 <= k2, k2 < IS.len(src.t)),
+                                             z3.Exists([j], z3.And(0 <= j, j < VS.len(L), key(j) == IS.at(src.t, k2)))),
+                            patterns=[IS.at(src.t, k2)]))
+        eng.fr.assumed_used.add("collections.Counter(xs).most_common(): pairs (value, count) whose values are exactly the distinct elements of xs (order unspecified)")
+        return [(st, VList(L, ("tuple", "int", "int"), "list"))]
     if isinstance(r, VConst) and r.what == "hashobj":
         if r.py[0] == "hmac":
             dg = smt.hmac256(r.py[1].t, r.py[2].t)
@@ -674,6 +695,15 @@ def file_method(eng, st, ref, cell, name, args, kwargs, node):
     pos = cell["pos"].t
     L = IS.len(content)
     fk = cell["fkind"]
+    if cell.get("pos_undefined"):
+        absolute = name == "seek" and (len(args) < 2 and "whence" not in kwargs or
+                                       (len(args) > 1 and z3.is_int_value(eng.as_int(st, args[1])) and eng.as_int(st, args[1]).as_long() == 0))
+        if absolute:
+            cell = dict(cell)
+            cell.pop("pos_undefined")
+            st.heap[ref.ident] = cell
+        else:
+            eng.oblige(st, False, "uses-initial-position", f"{name}@L{getattr(node, 'lineno', 0)}")
     if name == "tell":
         return [(st, VInt(pos))]
     if name == "read":
@@ -968,6 +998,20 @@ def contract_call(eng, st, target, args, kwargs, node):
     short = target.split(":")[1]
     if "aes_calls" in st.env:
         bound = dict(bound, aes_calls=st.env["aes_calls"])
+    # the callee's entry ghost bindings (let) are part of its contract vocabulary: evaluate them in the pre-state
+    for g in c.ghosts:
+        if g.where != "entry":
+            continue
+        for ge in g.stmts:
+            if isinstance(ge, ast.Call) and isinstance(ge.func, ast.Name) and ge.func.id == "let":
+                gs = st.fork()
+                gs.env = dict(bound)
+                saved0 = fr.init_state
+                fr.init_state = _with_env(st, bound)
+                try:
+                    bound[ast.literal_eval(ge.args[0])] = eng.named(st, eng.ev1(ge.args[1], gs), ast.literal_eval(ge.args[0]))
+                finally:
+                    fr.init_state = saved0
     pre = st.fork()                 # pre-call snapshot for old()
     cs = st.fork()
     cs.env = dict(bound)
@@ -1024,6 +1068,11 @@ def contract_call(eng, st, target, args, kwargs, node):
         rty = parse_type(c.returns or "none")
         res, facts = make_result(eng, ns, rty)
         ns.assume(*facts)
+        if c.result_alias and isinstance(res, VRef):
+            cell = dict(ns.heap[res.ident])
+            for fld, expr in c.result_alias.items():
+                cell[fld] = eng.ev1(expr, cs2)
+            ns.heap[res.ident] = cell
         cs2.env["result"] = res
     if mentions_aes(c) and "aes_calls" in ns.env:
         na = fresh("aes_calls", I)
@@ -1060,19 +1109,29 @@ def coerce_file_views(eng, st, c, bound, node):
         fcell = st.heap[fh.ident]
         E, off = fcell["content"].t, eng.as_int(st, cell["nonce_offset"])
         nonce = eng.deref(st, cell["initial_nonce"]).t
-        wf = z3.And(0 <= off, off + 8 <= IS.len(E), IS.len(nonce) == 4,
-                    *[IS.at(nonce, z3.IntVal(t)) == IS.at(E, off + t) for t in range(4)])
+        nl = IS.len(nonce)
+        avail = z3.If(IS.len(E) - off > 0, IS.len(E) - off, 0)
+        wf = z3.And(0 <= off, nl == z3.If(avail < 4, avail, 4),
+                    *[z3.Implies(t < nl, IS.at(nonce, z3.IntVal(t)) == IS.at(E, off + t)) for t in range(4)])
         eng.oblige(st, wf, f"xorview-wellformed@{c.target.split(':')[1]}", "", info={"line": getattr(node, "lineno", 0)})
         lpos = fcell["pos"].t - (off + 8)
-        eng.oblige(st, lpos >= 0, f"xorview-position@{c.target.split(':')[1]}", "")
+        indep = False
+        for pname, when in c.pos_independent:
+            if pname == name:
+                cs0 = st.fork()
+                cs0.env = dict(bound)
+                cond = z3.BoolVal(True) if when is None else eng.truth(cs0, eng.ev1(when, cs0))
+                indep = z3.is_true(cond)
+        if indep:
+            lp = fresh("lpos", I)
+            st.assume(lp >= 0)
+            lpos = lp
+        else:
+            eng.oblige(st, lpos >= 0, f"xorview-position@{c.target.split(':')[1]}", "")
         key = ("xview", E.get_id(), off.get_id())
         if key not in st.ghost:
             view = fresh("xview", ISq)
-            i = fresh("i", I)
-            xp = eng.specs.decl(eng.specs.funcs["xplain_at"])
-            st.assume(IS.len(view) == IS.len(E) - (off + 8), is_bytes_fact(view),
-                      z3.ForAll([i], z3.Implies(z3.And(0 <= i, i < IS.len(view)), IS.at(view, i) == xp(E, off, i)),
-                                patterns=[IS.at(view, i)]))
+            st.assume(view == smt.xview(E, off), is_bytes_fact(view))
             st.ghost[key] = view
         view = st.ghost[key]
         ident = f"file!xview!{next(_ids)}"
@@ -1111,6 +1170,9 @@ def make_result(eng, st, rty):
     if isinstance(rty, str) and rty.startswith("cstruct:"):
         from .heapmodel import sym_cstruct
         return sym_cstruct(eng, st, "result", rty), []
+    if isinstance(rty, str) and rty.startswith("obj:"):
+        from .heapmodel import sym_object
+        return sym_object(eng, st, "result", rty[4:]), []
     return sym_value("result", rty)
 
 
